@@ -479,6 +479,7 @@ type CtxSpec struct {
 }
 
 type World struct {
+	DIDMethod    string // with DIDWith: the reader is restricted to this DID method (schema.WithMethod)
 	DIDWith      bool // the capability's resource is read with schema.DIDString() (as real services do) instead of withReader
 	Rearchive    string // "archive" | "format": every token goes through Archive/Extract (Format/Parse) right after it is issued
 	NilDerives   bool // NewCapability(..., nil): no derivation rule given (model: dd_desc; Derives log not compared)
@@ -854,6 +855,8 @@ func tamper(d delegation.Delegation, sp *TokSpec) (delegation.Delegation, error)
 		m.V = "9.9.9"
 	case "verempty":
 		m.V = ""
+	case "veruniq":
+		m.V = "0.9." + sp.Name + sp.Nonce // a version string nobody has seen before, different for every token
 	case "ver0":
 		m.V = "0"
 	case "ver0dot":
@@ -1040,6 +1043,9 @@ func (w *World) descriptor(obs *Obs) validator.CapabilityParser[Cav] {
 	var wr schema.Reader[string, string] = withReader{}
 	if w.DIDWith {
 		wr = schema.DIDString()
+		if w.DIDMethod != "" {
+			wr = schema.DIDString(schema.WithMethod(w.DIDMethod))
+		}
 	}
 	if w.NilDerives {
 		// the documented default: a capability declared without a derivation rule is bound by DefaultDerives
